@@ -157,6 +157,9 @@ pub fn gen_case(run_seed: u64, tier: Tier) -> IterCase {
                     b[i] = !bg;
                 }
                 (n, b.iter().map(|&x| if x { '1' } else { '0' }).collect::<String>())
+            } else if rng.chance(1, 5) {
+                let n = gen_n(&mut rng) * rng.urange(1, 4);
+                (n, crate::gen::gen_word_pattern_bits(&mut rng, n).into_iter().map(|b| if b { '1' } else { '0' }).collect::<String>())
             } else {
                 let n = gen_n(&mut rng);
                 let density = *rng.pick(&[0u64, 1, 8, 32, 56, 63, 64]);
@@ -201,7 +204,11 @@ pub fn gen_case(run_seed: u64, tier: Tier) -> IterCase {
         _ => {
             let kind = *rng.pick(&[Flat::QVector, Flat::RSQVector256, Flat::RSQVector512]);
             let n = gen_n(&mut rng);
-            let syms: Vec<u8> = (0..n).map(|_| rng.below(4) as u8).collect();
+            let syms: Vec<u8> = if rng.chance(1, 4) {
+                crate::gen::gen_word_pattern_quads(&mut rng, n)
+            } else {
+                (0..n).map(|_| rng.below(4) as u8).collect()
+            };
             (
                 Container::Quads { kind, syms },
                 *rng.pick(&[IterKind::Iter, IterKind::RefIntoIter, IterKind::IntoIter]),
